@@ -109,7 +109,13 @@ pub fn gen(idx: u64, rng: &mut Rng, tier: Tier) -> Scn {
                     ops.push(TimedOp { when, op: Op::Remove(rng.below(objects.len() as u64) as usize) });
                 }
             }
-            _ => ops.push(TimedOp { when, op: Op::Publish }),
+            _ => {
+                if rng.chance(0.3) {
+                    ops.push(TimedOp { when, op: Op::PanicHoldingToi });
+                } else {
+                    ops.push(TimedOp { when, op: Op::Publish });
+                }
+            }
         }
     }
     // a full cycle of the 16-bit space while handles / objects stay live: the cursor comes back to TOIs
